@@ -354,6 +354,8 @@ def _run_requestor_script(world, spec, to, rec, res, idx):
             if k == "associate":
                 assoc = ae.associate("127.0.0.1", spec.get("port", PORT), evt_handlers=rec.handlers())
                 res["assoc"] = assoc
+                if spec.get("nt_response"):  # documented per-association setting: what the reactor does when the network timeout expires
+                    assoc.network_timeout_response = spec["nt_response"]
                 steps.append((t, k, assoc.is_established))
             elif k == "sleep":
                 S.VTime.sleep(op[1])
@@ -439,6 +441,10 @@ def run(sc, chooser=None, raise_plan=None, keep_trace=False):
             if acc.get("require_calling"):
                 acc_ae.require_calling_aet = list(acc["require_calling"])
             handlers = _acceptor_handlers(w, acc.get("handlers", {}), out["handler_log"]) + rec_acc.handlers()
+            if acc.get("nt_response"):
+                from pynetdicom import evt as _evt
+
+                handlers = handlers + [(_evt.EVT_REQUESTED, lambda event, v=acc["nt_response"]: setattr(event.assoc, "network_timeout_response", v))]
             if acc.get("extra_handlers"):
                 over = {e for e, _ in acc["extra_handlers"]}
                 handlers = [h for h in handlers if h[0] not in over] + list(acc["extra_handlers"])
